@@ -719,9 +719,18 @@ def _binop(op, a, b, inplace=False):
             raise ShimUnsupported('comparison at object dtype')
     else:
         ld = rdt
-    xa = ca if da is not None else _obj0(ca)
-    xb = cb if db is not None else _obj0(cb)
-    r = _map2(lambda x, y: E.elem_binop(op, E.cast(x, da, ld), E.cast(y, db, ld), ld), xa, xb)
+    if db is None and da == ld:
+        yc = E.cast(cb, None, ld)
+        r = _map1(lambda x: E.elem_binop(op, x, yc, ld), ca)
+    elif da is None and db == ld:
+        xc = E.cast(ca, None, ld)
+        r = _map1(lambda y: E.elem_binop(op, xc, y, ld), cb)
+    elif da == ld and db == ld:
+        r = _map2(lambda x, y: E.elem_binop(op, x, y, ld), ca, cb)
+    else:
+        xa = ca if da is not None else _obj0(ca)
+        xb = cb if db is not None else _obj0(cb)
+        r = _map2(lambda x, y: E.elem_binop(op, E.cast(x, da, ld), E.cast(y, db, ld), ld), xa, xb)
     if inplace:
         if rdt != da:
             r = _map1(lambda x: E.cast(x, rdt, da), r)
@@ -1570,11 +1579,15 @@ def _lookup(tab, idx):
             inr = z3.ULT(x, z3.BitVecVal(L, w)) if (L < (1 << w)) else None
             if idt.kind == 'i':
                 inr = z3.And(x >= 0, x < L) if L < (1 << (w - 1)) else (x >= 0)   # negative indices are outside the supported claim
-            if inr is not None:
+            if inr is not None and E.maybe_bits(x) >= L:
                 CTX.side.append(('index', inr))
             if reg is not None and L == 256:
                 return reg[1](x if w == 8 else z3.Extract(7, 0, x))
             if conc and typed.dtype.kind in 'iu':
+                kb = L.bit_length() - 1
+                if L == (1 << kb) and 0 < kb < w:
+                    # power-of-two table: index with the low kb bits (equal to x under the recorded in-range side condition)
+                    return z3.Select(_z3_table(typed, z3.BitVecSort(kb)), z3.Extract(kb - 1, 0, x))
                 return z3.Select(_z3_table(typed, z3.BitVecSort(w)), x)
             r = tab.c[L - 1]
             for i in range(L - 2, -1, -1):
